@@ -342,6 +342,10 @@ class CHECK(Check):
             else:
                 if raw.count("\n") > 1 or (raw.count("\n") == 1 and not raw.endswith("\n")) or raw == "":
                     return "default section does not hold exactly one line"
+                if raw.count("\n") == 0 and i != len(elems) - 1:
+                    # only the last line of a content can lack its terminator: a piece without one in the middle is a line cut
+                    # at some other character (form feed, NEL, U+2028 ... are not line ends of a text stream)
+                    return "default section does not hold exactly one line (a line was cut at a character that is not a line end)"
             pos += len(raw)
         if pos != len(content):
             return "remaining lines were not kept as default sections"
